@@ -187,6 +187,9 @@ fn run_kind<'s, I: Kind<'s> + Clone>(sub: &str, g: &G, toks: &[char], mk: &dyn F
 }
 
 fn check_inner(sub: &str, g: &G, toks: &[char], pick: u32, l: &mut Local) -> CaseRes {
+    if too_expensive(g, toks, 8_000, l) {
+        return Ok(());
+    }
     if sub.ends_with("slice") {
         let v: Vec<char> = toks.to_vec();
         let sl: &[char] = &v;
